@@ -575,7 +575,9 @@ def heom_taylor(repo):
 def c16_static(repo):
     a, wa = heom_kernels(repo)
     b, wb = heom_taylor(repo)
-    return a + "\nFrom QV Require Import Base.Taylor Base.TaylorG Proofs.TaylorGen.\n" + b, wa + wb
+    import translate_c16
+    c, wc = translate_c16.rhs(repo)
+    return a + c + "\nFrom QV Require Import Base.Taylor Base.TaylorG Proofs.TaylorGen.\n" + b, wa + wc + wb
 
 
 T_SETRATE = """
